@@ -1,6 +1,7 @@
 from ..framework import Spec
 from ..ties_bits import parts_tie
 from ..ties_sys import sys_tie, isa_tie, macro_scenario_tie, constraint_scenario_tie
+from ..ties_macroops import macro_operand_oracle
 
 SPEC = Spec(
     pid='C12',
@@ -10,4 +11,6 @@ SPEC = Spec(
           isa_tie({'p_macros': 1.0}, n_quick=200, name='isa_macros'), macro_scenario_tie(),
           # sliced addresses narrower than half the address width; relative offsets with a single configured bound
           constraint_scenario_tie()],
+    # constraints configured for a macro's own operands (open finding F1: not enforced)
+    oracles=[macro_operand_oracle()],
 )
